@@ -87,6 +87,7 @@ let parse_ftype (s : string) : ftype =
 
 let parse_kind (s : string) : kind =
   if s = "alpha" then KAlpha
+  else if s = "raw" then KCodec ((fun x -> x), (fun x -> x))
   else if s = "coll" then KCollation
   else if String.length s > 5 && String.sub s 0 5 = "comp:" then
     KCompound (List.map parse_ftype (String.split_on_char ',' (String.sub s 5 (String.length s - 5))))
@@ -111,7 +112,7 @@ let parse_key (k : kind) (s : string) : akey =
   | KCompound sch ->
     let parts = String.split_on_char ',' s in
     AT (List.map2 parse_fval sch parts)
-  | KCodec (_, _) -> AB (xbytes s)   (* user codec: the key is an opaque byte string; never created by parse_kind *)
+  | KCodec (_, _) -> AB (xbytes s)   (* user codec ("raw"): the key is an opaque byte string *)
 
 let show_float (w : nat) (b : n) : string = if is_nan w b then "nan" else hex_of_n b
 
@@ -201,7 +202,7 @@ let cq_kind (k : kind) : string =
   | KUnsigned w -> "(KUnsigned " ^ cq_nat w ^ ")" | KSigned w -> "(KSigned " ^ cq_nat w ^ ")"
   | KFloat w -> "(KFloat " ^ cq_nat w ^ ")"
   | KCompound s -> "(KCompound " ^ cq_list cq_ftype s ^ ")"
-  | KCodec (_, _) -> "(KCodec _ _)"   (* placeholder: functions cannot be printed; never needed at run time *)
+  | KCodec (_, _) -> "(KCodec (fun x => x) (fun x => x))"   (* the only user codec the harness instantiates: the identity ("raw") *)
 let cq_fval (v : fval) : string =
   match v with
   | VU x -> "VU " ^ cq_n x | VS x -> "VS " ^ cq_z x | VF x -> "VF " ^ cq_n x | VStr s -> "VStr " ^ cq_bytes s
